@@ -80,11 +80,17 @@ def check_existing(ctx, doc, loc, val):
     for ue in modes:
         ctx.evaluation()
         routes = {
+            "from_parts(str).resolve": lambda: JSONPointer.from_parts(list(toks), unicode_escape=ue).resolve(doc),
+            "pointer.resolve(parts)": lambda: jsonpath.pointer.resolve(list(toks), doc, unicode_escape=ue),
             "pointer.resolve": lambda: jsonpath.pointer.resolve(text, doc, unicode_escape=ue),
             "JSONPointer.resolve": lambda: JSONPointer(text, unicode_escape=ue).resolve(doc),
             "resolve(default)": lambda: JSONPointer(text, unicode_escape=ue).resolve(doc, default="DEFAULT"),
             "resolve_parent": lambda: JSONPointer(text, unicode_escape=ue).resolve_parent(doc)[1],
         }
+        if text == text.strip():
+            # (relative pointer text is stripped of surrounding blanks by the parser, so the
+            # route is only used when the pointer text has none)
+            routes["relative.to().resolve"] = lambda: JSONPointer("/zz-unused", unicode_escape=ue).to("1" + text, unicode_escape=ue).resolve(doc)
         for rname, fn in routes.items():
             o = impl.call(fn)
             if not o.ok or not same(o.value, val):
@@ -124,6 +130,19 @@ def check_unevaluable(ctx, doc, toks, why):
         if o.ok:
             ctx.violation("unevaluable-pointer-yielded-a-value:%s-on-%s" % (tclass(toks[-1]), parent_kind), dict(case, unicode_escape=ue), {"pointer": text, "unicode_escape": ue, "value": canon(o.value)[:80], "why_unevaluable": why})
             return
+        # the same tokens through the other construction routes must be unevaluable too
+        for rname, fn in (("from_parts(str)", lambda: JSONPointer.from_parts(list(toks), unicode_escape=ue).resolve(doc)),
+                          ("pointer.resolve(parts, default)", lambda: jsonpath.pointer.resolve(list(toks), doc, default="DEFAULT", unicode_escape=ue)),
+                          ("relative.to()", (lambda: JSONPointer("/zz-unused", unicode_escape=ue).to("1" + text, unicode_escape=ue).resolve(doc)) if text == text.strip() else (lambda: p.resolve(doc))),
+                          ("from_parts(str).exists", lambda: JSONPointer.from_parts(list(toks), unicode_escape=ue).exists(doc))):
+            oo = impl.call(fn)
+            bad = (oo.ok and not (rname.endswith("default)") and oo.value == "DEFAULT") and not (rname.endswith("exists") and oo.value is False))
+            if bad:
+                ctx.violation("unevaluable-pointer-yielded-a-value-through:%s" % rname, dict(case, unicode_escape=ue), {"pointer": text, "route": rname, "value": canon(oo.value)[:80], "why_unevaluable": why})
+                return
+            if not oo.ok and not isinstance(oo.exc, jsonpath.JSONPointerResolutionError):
+                ctx.violation("unevaluable-pointer-raised-foreign-through:%s:%s" % (rname, type(oo.exc).__name__), dict(case, unicode_escape=ue), {"pointer": text, "error": oo.desc()})
+                return
         if not isinstance(o.exc, jsonpath.JSONPointerResolutionError):
             ctx.violation("unevaluable-pointer-raised-foreign:%s" % type(o.exc).__name__, dict(case, unicode_escape=ue), {"pointer": text, "error": o.desc()})
             return
